@@ -56,8 +56,11 @@ impl Default for TargetCfg {
 }
 
 pub fn random_name(rng: &mut Rng) -> Vec<u8> {
-    match rng.below(11) {
+    match rng.below(13) {
         0 => Vec::new(),
+        // control characters inside the name: the kernel stores whatever PR_SET_NAME was given
+        11 => rng.pick(&[&b"ab\ncd"[..], b"\nworker", b"l1\nl2\n\nl4", b"x\n", b"a\tb\rc", b"\n\n", b"end\n \n"]).to_vec(),
+        12 => rng.pick(&[&b"a\0hidden"[..], b"\x01\x02\x7f", b"q\x1b[31m", b"fifteen-chars-x", b"\xc3\xa9\n\xff"]).to_vec(),
         1 => b"  ".to_vec(),
         2 => "thr\u{e9}\u{e4}d-\u{4e16}".as_bytes().to_vec(),
         3 => b"fifteen-chars-xx".to_vec(),
@@ -106,6 +109,12 @@ pub fn add_elf_file_ex(b: &mut Builder, rng: &mut Rng, dir: &str, name: &str, sp
 }
 
 pub fn build_target(rng: &mut Rng, cfg: &TargetCfg) -> Result<Scenario, String> {
+    build_target_with(rng, cfg, |_, _| {})
+}
+
+/// Like `build_target`; `extra` may add to the spec (late regions, more threads) just before the
+/// target is spawned.
+pub fn build_target_with<F: FnOnce(&mut Builder, &mut Rng)>(rng: &mut Rng, cfg: &TargetCfg, extra: F) -> Result<Scenario, String> {
     let mut b = Builder::new();
     b.spec.dir = crate::target::new_dir("sc");
     let dir = b.spec.dir.clone();
@@ -193,6 +202,7 @@ pub fn build_target(rng: &mut Rng, cfg: &TargetCfg) -> Result<Scenario, String> 
             _ => FdSpec::DevNull,
         });
     }
+    extra(&mut b, rng);
     let target = Target::spawn(b.spec.clone(), &b.opts)?;
     Ok(Scenario { b, target, pattern_regions, exec_regions, files, holes })
 }
